@@ -25,13 +25,14 @@ METHODS = ("fit", "partial_fit", "predict", "predict_proba", "predict_freq", "pr
            "sample_proba", "query", "update", "query_by_utility", "predict_annotator_perf")
 
 
-def _replay(K, entry, cfg):
+def _replay(K, entry, cfg, candidates=None):
     from paramflow import replay as R
+    candidates = DICT_CANDIDATES if candidates is None else candidates
     if entry["kind"] == "estimator":
-        return R.replay_estimator(K, entry, cfg, DICT_CANDIDATES)
+        return R.replay_estimator(K, entry, cfg, candidates)
     if entry["kind"] == "bm":
-        return R.replay_bm(K, entry, cfg, DICT_CANDIDATES)
-    return R.replay_stream(K, entry, cfg, DICT_CANDIDATES)
+        return R.replay_bm(K, entry, cfg, candidates)
+    return R.replay_stream(K, entry, cfg, candidates)
 
 
 def paramflow_pass(tier, known):
@@ -88,6 +89,15 @@ def paramflow_pass(tier, known):
                     wants = {"param_write": ("get_params_changed",), "alias_mutation": ("caller_object_mutated", "argument_mutated", "get_params_changed"),
                              "stale_read": ("fit_depends_on_history",)}.get(e["kind"], ())
                     hit = [f for f in found if f[0] in wants and (e["kind"] != "param_write" or e["what"] in f[1])]
+                    if not hit and any(v == {"dict": True} for v in cfg.values()):
+                        # defaults filled in lazily only show when the caller's dict does not contain the key yet
+                        from harness.C05 import DICT_CANDIDATES_ALT
+                        try:
+                            f2 = _replay(K, entry, cfg, dict(DICT_CANDIDATES, **DICT_CANDIDATES_ALT))
+                            res["validated"] += 1
+                            hit = [f for f in f2 if f[0] in wants]
+                        except Exception:
+                            pass
                     desc = dict(cls=name, method=method, kind=e["kind"], what=e["what"][:80], where=f"{e['where']}:{e['line']}", config=cfg)
                     if hit:
                         confirmed_here += 1
